@@ -102,7 +102,7 @@ def env_json(env, idsizes):
     # TLC reads a JSON object as a record; an empty object is avoided with a dummy identifier
     ids = {nm: ibytes(v, idsizes[nm]) for nm, v in env["ids"].items()}
     ids["__none"] = [0]
-    return {"ids": ids, "seed": env["seed"], "endian": env["endian"]}
+    return {"ids": ids, "seed": env["seed"], "endian": env["endian"], "wr": []}
 
 
 JUDGE_TMPL = """---- MODULE %(name)s ----
